@@ -7,7 +7,7 @@ accessor-writability; rebind never depends on accessor-writability.
 import contextlib
 
 import pyglove as pg
-from engine.chx import Assume, Violation, reach
+from engine.chx import Assume, Violation, reach, untraced, concretize
 from harness import treeops as T
 
 PROPERTY = 'C08'
@@ -131,16 +131,36 @@ _ARGS = [('v0', 'int'), ('v1', 'int'), ('v2', 'int'), ('v3', 'int'), ('p', 'int'
          ('sealed', 'bool'), ('acc_off', 'bool'), ('w', 'int')]
 
 
+def _select_target(params, t, i):
+  """Lazy concretization of the target node and index/key selector (only for applicable (op, node kind) pairs)."""
+  with untraced():
+    nodes = T.nodes_of(T.SKELETONS[params['skel']]((1, 2, 3, 4)))
+  t = concretize(t, range(len(nodes)))
+  if not T.applicable(params['op'], nodes[t], t):
+    raise Assume()
+  n = T.fanout(nodes[t])
+  return t, concretize(i, range(-n - 1, n + 2)), len(nodes)
+
+
 def h_flags(params, v0, v1, v2, v3, p, t, i, sealed, acc_off, w):
-  root = T.SKELETONS[params['skel']]((v0, v1, v2, v3))
+  """Selectors are solver decisions made concrete by branching; the guarded call and the oracle run natively."""
+  sealed, acc_off = bool(sealed), bool(acc_off)
   if not (sealed or acc_off):
     raise Assume()
-  return _check_one(params, root, p, t, i, sealed, acc_off, (0, 0), (0, 0), w, '')
+  t, i, nn = _select_target(params, t, i)
+  p = concretize(p, range(nn))
+  with untraced():
+    root = T.SKELETONS[params['skel']]((1, 2, 3, 4))
+    return _check_one(params, root, p, t, i, sealed, acc_off, (0, 0), (0, 0), 50, '')
 
 
 def h_scopes(params, v0, v1, v2, v3, t, i, sealed, acc_off, s1, s2, a1, a2, w):
-  root = T.SKELETONS[params['skel']]((v0, v1, v2, v3))
-  return _check_one(params, root, t, t, i, sealed, acc_off, (s1, s2), (a1, a2), w, 'scoped.')
+  sealed, acc_off = bool(sealed), bool(acc_off)
+  t, i, nn = _select_target(params, t, i)
+  s1, s2, a1, a2 = (concretize(x, range(4)) for x in (s1, s2, a1, a2))
+  with untraced():
+    root = T.SKELETONS[params['skel']]((1, 2, 3, 4))
+    return _check_one(params, root, t, t, i, sealed, acc_off, (s1, s2), (a1, a2), 50, 'scoped.')
 
 
 SCOPE_OPS = ['setitem', 'setattr', 'delitem', 'append', 'update', 'rebind_key', 'rebind_idx', 'rebind_deep', 'pop', 'iadd', 'ior',
@@ -151,7 +171,7 @@ def shards(tier, seed):
   quick = tier == 'quick'
   out = []
   b = 40 if quick else 400
-  skels = ['list', 'dict', 'obj'] if quick else list(T.SKELETONS)
+  skels = ['list', 'dict', 'obj', 'mixed'] if quick else list(T.SKELETONS)
   for skel in skels:
     for op in T.MUTATING:
       out.append(dict(name=f'flags:{skel}:{op}', fn='h_flags', params=dict(skel=skel, op=op), args=_ARGS,
